@@ -209,3 +209,105 @@ impl webpki_types::SignatureVerificationAlgorithm for Ed25519Dalek {
         false
     }
 }
+
+/// Verification harness wrappers (see /verif): drive the private verifiers with raw inputs.
+#[cfg(iroh_verif)]
+pub(crate) mod verif_ident {
+    use rustls::{
+        client::danger::ServerCertVerifier,
+        internal::msgs::codec::{Codec, Reader},
+        pki_types::{ServerName, UnixTime},
+        server::danger::ClientCertVerifier,
+    };
+
+    use super::*;
+
+    fn now() -> UnixTime {
+        UnixTime::since_unix_epoch(std::time::Duration::from_secs(1_700_000_000))
+    }
+
+    fn certs(v: &[Vec<u8>]) -> Vec<Certificate<'static>> {
+        v.iter().map(|c| Certificate::from(c.clone())).collect()
+    }
+
+    /// Builds the `DigitallySignedStruct` of a CertificateVerify message from its wire form.
+    fn dss(scheme: u16, sig: &[u8]) -> Result<DigitallySignedStruct, rustls::Error> {
+        let mut wire = scheme.to_be_bytes().to_vec();
+        wire.extend_from_slice(&(sig.len() as u16).to_be_bytes());
+        wire.extend_from_slice(sig);
+        DigitallySignedStruct::read(&mut Reader::init(&wire)).map_err(rustls::Error::from)
+    }
+
+    pub(crate) fn server_cert(
+        end_entity: &[u8],
+        intermediates: &[Vec<u8>],
+        name: &ServerName<'_>,
+    ) -> Result<(), rustls::Error> {
+        ServerCertificateVerifier
+            .verify_server_cert(
+                &Certificate::from(end_entity.to_vec()),
+                &certs(intermediates),
+                name,
+                &[],
+                now(),
+            )
+            .map(|_| ())
+    }
+
+    pub(crate) fn server_sig(
+        message: &[u8],
+        cert: &[u8],
+        scheme: u16,
+        sig: &[u8],
+    ) -> Result<(), rustls::Error> {
+        ServerCertificateVerifier
+            .verify_tls13_signature(message, &Certificate::from(cert.to_vec()), &dss(scheme, sig)?)
+            .map(|_| ())
+    }
+
+    pub(crate) fn client_cert(
+        end_entity: &[u8],
+        intermediates: &[Vec<u8>],
+    ) -> Result<(), rustls::Error> {
+        ClientCertificateVerifier
+            .verify_client_cert(
+                &Certificate::from(end_entity.to_vec()),
+                &certs(intermediates),
+                now(),
+            )
+            .map(|_| ())
+    }
+
+    pub(crate) fn client_sig(
+        message: &[u8],
+        cert: &[u8],
+        scheme: u16,
+        sig: &[u8],
+    ) -> Result<(), rustls::Error> {
+        ClientCertificateVerifier
+            .verify_tls13_signature(message, &Certificate::from(cert.to_vec()), &dss(scheme, sig)?)
+            .map(|_| ())
+    }
+
+    /// TLS 1.2 signatures are never valid, whatever is presented.
+    pub(crate) fn tls12_sig(server_side: bool, message: &[u8], cert: &[u8], scheme: u16, sig: &[u8]) -> bool {
+        let Ok(dss) = dss(scheme, sig) else { return false };
+        let cert = Certificate::from(cert.to_vec());
+        if server_side {
+            ClientCertVerifier::verify_tls12_signature(&ClientCertificateVerifier, message, &cert, &dss).is_ok()
+        } else {
+            ServerCertVerifier::verify_tls12_signature(&ServerCertificateVerifier, message, &cert, &dss).is_ok()
+        }
+    }
+
+    /// (offers client auth, server wants raw keys, client wants raw keys, schemes)
+    pub(crate) fn policy() -> (bool, bool, bool, Vec<u16>, Vec<u16>) {
+        (
+            ClientCertificateVerifier.offer_client_auth(),
+            ServerCertVerifier::requires_raw_public_keys(&ServerCertificateVerifier),
+            ClientCertVerifier::requires_raw_public_keys(&ClientCertificateVerifier),
+            ServerCertVerifier::supported_verify_schemes(&ServerCertificateVerifier).into_iter().map(u16::from).collect(),
+            ClientCertVerifier::supported_verify_schemes(&ClientCertificateVerifier).into_iter().map(u16::from).collect(),
+        )
+    }
+}
